@@ -101,6 +101,11 @@ def run(tier):
                 "    bench/runZ%dZ.rs | 12 ms faster" % k, "  two/spaces.rs | 3 ++-", "\tsub/tab.rs | 1 +", "x | 2 +-"][k % 7]
     plans.append(stream.Plan("rs+relative/indented", rnd.sample(withtext, min(600, len(withtext))), ["--relative-paths"], None,
                              indented_payload, skin={"other_payload": True}, env={"GIT_PREFIX": "sub/"}))
+    # the default commit style (raw): the commit line and what follows it are written straight to the output - after
+    # everything that is still buffered
+    plans.append(stream.Plan("rs+commit-raw", [h for h in hists + cov if any(l["c"] == "commit" and i > 0 and h[i - 1]["c"] in ("minus", "plus", "zero", "nonl", "other", "blank")
+                                                          for i, l in enumerate(h))][:1500 if tier == "quick" else 20000],
+                             ["--commit-style", "raw"], {"commitRaw": True}))
     mstat = tlc.run_tlc("MC_Stream", cfg="MC_Stream_stat", workers=8, coverage=False, heap="8g", timeout=1800)
     tlc.require_ok(mstat, "MC_Stream_stat")
     if mstat.violated:
@@ -180,6 +185,10 @@ def run(tier):
         V.violation(f"exit:{m}:{raw!r}"[:300], f"delta exited {outs[j].code} on free text in mode {m}",
                     {"mode": m, "run": outs[j].to_json()})
     V.drift = stream.drift_report(res)
+    # `git show <rev>` (no file name) and no calling git at all: text without construct-opening lines passes through
+    # (the state machine ShowFile; the file view itself is C15's)
+    from . import c15
+    sf = c15.showfile_part(tier, V, pid=PID, callers=("show", "none"))
     rc = V.finish()
     core.write_evidence(PID, tier, "model_checking", {
         "states": mc.distinct, "transitions": mc.generated,
